@@ -5,8 +5,9 @@ class defined in a script run as __main__ would make the loader re-execute the s
 
 Every class records its runtime life-cycle into the module-level LOG (list of tuples), so that the checks can count
 __post_init__ / execute calls and see their relative order:
-    ("post_init", id(obj), {param name: value seen at that time, or MISSING})
-    ("execute", id(obj), role)      role is the class attribute ROLE ("lw" / "task")
+    ("post_init", obj, {param name: value seen at that time, or MISSING})
+    ("execute", obj, role)      role is the class attribute ROLE ("lw" / "task")
+(the objects themselves are stored, which also keeps them alive so that id() stays unique during a check)
 """
 from enum import Enum
 from pathlib import Path
@@ -32,13 +33,25 @@ def reset_log():
     del LOG[:]
 
 
+def zoo_class(obj):
+    """The zoo class of a configuration object or of a runtime instance (both are instances of generated subclasses)"""
+    for k in type(obj).__mro__:
+        if k.__dict__.get("ZOO", False):
+            return k
+    raise TypeError(f"not a zoo object: {type(obj)}")
+
+
+def param_names(obj):
+    return list(zoo_class(obj).__getxpmtype__().arguments.keys())
+
+
 def _post_init(self):
-    names = list(type(self).__getxpmtype__().arguments.keys())
-    LOG.append(("post_init", id(self), {n: self.__dict__.get(n, MISSING) for n in names}))
+    names = param_names(self)
+    LOG.append(("post_init", self, {n: self.__dict__.get(n, MISSING) for n in names}))
 
 
 def _execute(self):
-    LOG.append(("execute", id(self), getattr(self, "ROLE", "?")))
+    LOG.append(("execute", self, getattr(self, "ROLE", "?")))
 
 
 class Color(Enum):
@@ -206,7 +219,26 @@ class TaskOutGen(Task):
     execute = _execute
 
 
+class TaskOutPre(Task):
+    """task_outputs in the style of the serializers: the returned configuration carries a pre-task that depends on the
+    task and refers back to the configuration (cycle through the pre-task)"""
+
+    ROLE = "task"
+    k: Param[int] = 0
+    a: Param[Optional[Config]] = None
+
+    def task_outputs(self, dep) -> Leaf:
+        leaf = Leaf(i=self.k)
+        return leaf.add_pretasks(dep(LW(k=self.k, target=leaf)))
+
+    __post_init__ = _post_init
+    execute = _execute
+
+
+for _c in (Leaf, GenLeaf, Node, GenNode, LoopA, LoopB, LW, LWGen, TaskPlain, TaskNoGen, TaskOut, TaskOutGen, TaskOutPre):
+    _c.ZOO = True  # set after class creation: found in the class __dict__ of exactly these classes
+
 CLASSES = {
     c.__name__: c
-    for c in (Leaf, GenLeaf, Node, GenNode, LoopA, LoopB, LW, LWGen, TaskPlain, TaskNoGen, TaskOut, TaskOutGen)
+    for c in (Leaf, GenLeaf, Node, GenNode, LoopA, LoopB, LW, LWGen, TaskPlain, TaskNoGen, TaskOut, TaskOutGen, TaskOutPre)
 }
